@@ -1,6 +1,7 @@
-(* C09 — pins (codec theorems in Proofs/C09Main.v to follow). *)
+(* C09 — PDB write-read round trip and the 80-column layout: pins and theorems about Model.PdbLine, which the
+   correspondence check ties to parser_v2.write_pdb / parse_pdb_atoms.  Only `exact`. *)
 From Coq Require Import String Ascii ZArith List Bool.
-From RV Require Import Base.Val Gen.ParserV2 Model.PdbLine.
+From RV Require Import Base.Val Base.PyStr Gen.ParserV2 Model.PdbLine Proofs.NumStr Proofs.C09Main.
 Import ListNotations.
 
 Lemma C09_pin_shapes : pdb_formatter_as_modelled = true /\ ter_before_every_endmdl = true.
@@ -14,3 +15,44 @@ Lemma C09_pin_slices : pdb_slices =
    ("tempFactor", (60, 66)); ("element", (76, 78)); ("charge", (78, 80)); ("MODEL", (10, 14))]%string.
 Proof. reflexivity. Qed.
 Print Assumptions C09_pin_slices.
+
+(* numbers: printing then parsing is the identity, for every integer and every fixed-point value *)
+Theorem C09_int_roundtrip : forall v, parse_z (z_str v) = Some v.
+Proof. exact parse_z_z_str. Qed.
+Print Assumptions C09_int_roundtrip.
+
+Theorem C09_fixed_roundtrip : forall dec v, 1 <= dec -> parse_fixed dec (fixed_body dec v) = Some v.
+Proof. exact parse_fixed_body. Qed.
+Print Assumptions C09_fixed_roundtrip.
+
+(* an atom record whose fields fit the PDB widths (`fits`, a computable check) is written as exactly 80 columns, the
+   concatenation of its 19 fixed-width fields *)
+Theorem C09_line_80 : forall a, fits a = true -> length (format_line a) = 80 /\ format_line a = concat (fields a).
+Proof. exact line_80. Qed.
+Print Assumptions C09_line_80.
+
+Theorem C09_ter_80 : forall s rn ch rs ic, length (z_str (s + 1)) <= 5 -> length (strip rn) <= 3 -> length ch <= 1 -> length (z_str rs) <= 4 -> length ic <= 1 ->
+    length (ter_line s rn ch rs ic) = 80.
+Proof. exact ter_80. Qed.
+Print Assumptions C09_ter_80.
+
+(* reading a written line gives back every field: record type, serial, name, altloc, residue name, chain, number, icode,
+   x, y, z (thousandths), occupancy and B (hundredths), element, charge; the model is the reader's current model *)
+Theorem C09_line_roundtrip : forall m a, fits a = true -> parse_atom_line m (format_line a) = expected m a.
+Proof. exact line_roundtrip. Qed.
+Print Assumptions C09_line_roundtrip.
+
+(* whole files: MODEL / TER / ENDMDL / END records are transparent to the reader, models are recovered from the MODEL
+   records, and every atom comes back, in order *)
+Theorem C09_file_roundtrip : forall l, (forall a, In a l -> row_ok a = true) ->
+    parse_pdb (write_pdb l) = map (fun a => expected (ar_model a) a) l.
+Proof. exact file_roundtrip. Qed.
+Print Assumptions C09_file_roundtrip.
+
+(* non-vacuity: a record with a negative coordinate, a primed atom name, an insertion code and a charge fits *)
+Example C09_nonvacuous :
+  let a := {| ar_type := L "ATOM"; ar_serial := 99999; ar_name := L "O5'"; ar_alt := L "A"; ar_resname := L "PSU"; ar_chain := L "B";
+              ar_resseq := (-12); ar_icode := L "C"; ar_x := (-123456); ar_y := 9999999; ar_z := 0; ar_occ := 100; ar_b := 12345;
+              ar_element := L "O"; ar_charge := L "1-"; ar_model := 2 |} in
+  row_ok a = true /\ format_line a = L "ATOM  99999  O5'APSU B -12C   -123.4569999.999   0.000  1.00123.45           O1-".
+Proof. vm_compute. split; reflexivity. Qed.
